@@ -50,7 +50,7 @@ logging.getLogger("asyncio").setLevel(logging.CRITICAL)
 
 ID = "C17"
 DRIVER = "drv_c17"
-PROPS = ["Ptk.Props.C17", "Ptk.Props.C17Buf"]
+PROPS = ["Ptk.Props.C17", "Ptk.Props.C17Buf", "Ptk.Props.C17Flush"]
 LEVEL_TEXT = ("Lean 4 theorems over two executable models of the accept boundary, for EVERY schedule of writes / reads "
               "of any size / starts / timer expiries / finishes and every CPR placement. Layer 1 (process_keys with "
               "the is_done gate, c-j re-feed, run_async type-ahead replay / read guard / CPR wait of the exit path / "
@@ -60,8 +60,11 @@ LEVEL_TEXT = ("Lean 4 theorems over two executable models of the accept boundary
               "buffer of KeyProcessor._process: multi-key bindings, prefix waiting, retry loop, flush timer, "
               "push-back on exit, CPR outside the buffer, numeric argument) for EVERY state-dependent binding registry: "
               "conservation, a CPR changes neither the argument nor what the next key does, "
-              "nothing dispatched after the exiting call, no double exit, key buffer empty at exit. Both models are "
-              "tied to /repo on every run by a step-by-step correspondence on explicit schedules, an end-to-end "
+              "nothing dispatched after the exiting call, no double exit, key buffer empty at exit. Layer 3 (input "
+              "flush timer): a sequence split across reads closer than ttimeoutlen apart is never flushed in "
+              "between. The models are "
+              "tied to /repo on every run by a step-by-step correspondence on explicit schedules (also on a virtual clock "
+              "with chunk boundaries inside escape sequences), an end-to-end "
               "correspondence (k prompts on one pipe: pre-fed, writer thread, writer task, byte-level chunking) and "
               "the property oracle")
 LEVEL_NOTE = ("PARTIAL: read boundaries, finish points and timer expiry are nondeterministic inputs of the models "
@@ -80,7 +83,8 @@ RULE = ("step cases: every script over {a, Enter, CPR, c-j} up to the tier's len
         "key, or a CPR")
 EXHAUSTIVE = True
 EXHAUSTIVE_SCOPE = {
-    "quick": "step: scripts over {a,Enter,CPR,c-j} len<=3 with >=1 accepting key, all chunkings into writes (len 3: "
+    "quick": "virtual clock: bursts 'a' | 'b'+first part of Left/Delete | rest+'X Enter cd Enter' for every split position "
+             "and gaps in {0.4,0.7,0.95}*ttimeoutlen; step: scripts over {a,Enter,CPR,c-j} len<=3 with >=1 accepting key, all chunkings into writes (len 3: "
              "3 chunkings), 4 schedule patterns; CPR-answering output: scripts over {a,Enter,CPR} len<=3, all "
              "chunkings, 4 patterns around the CPR wait; key-buffer layer: scripts over {a,Enter,c-x,c-space c-c,c-c} len<=3, 2-4 chunkings, "
              "schedule patterns with and without the flush timer",
@@ -100,8 +104,10 @@ ASSUMPTIONS = ["asyncio runs callbacks of one loop one at a time (the model's ev
                "one pipe input = one typeahead hash; outputs: DummyOutput (no CPR requests) and Vt100_Output on a "
                "fake tty (CPR request at every start; the 1 s timeout of wait_for_cpr_responses is shortened to "
                "0.08 s in the harness, a timer value only)"]
-PARTIAL_SCOPE = ["the parser's flush timer (flush_input / ttimeoutlen) is not modelled: scripts contain no lone Escape; "
-                 "the key processor's flush timer (_Flush / timeoutlen) is an event of the second-layer model only",
+PARTIAL_SCOPE = ["the input flush timer (flush_input / ttimeoutlen) is the third-layer model (pending deadline moved "
+                 "by every read); its cases keep every gap inside an escape sequence below ttimeoutlen (a longer stop "
+                 "legitimately yields a lone Escape); the key processor's flush timer (_Flush / timeoutlen) is an "
+                 "event of the second-layer model only",
                  "handlers that feed keys (c-j) are in the first layer only; the second layer's concrete registry "
                  "covers the keys the scripts use (c-x prefix, c-x c-x, escape Enter, escape + unbound key, "
                  "c-space c-c), its theorems cover every registry",
@@ -173,6 +179,20 @@ def tok_codes(t: str):
     if t.startswith("EARG:"):
         return [ESC, ord(t[5:])]
     return [tok_code(t)]
+
+
+def item_bytes(it) -> bytes:
+    """a W item: a token, or the first (`H`) / remaining (`T`) bytes of a token"""
+    if isinstance(it, str):
+        return tok_bytes(it)
+    kind, tok, j = it
+    b = tok_bytes(tok)
+    return b[:j] if kind == "H" else b[j:]
+
+
+def item_tokens(items):
+    """the tokens that are complete once these items have been read"""
+    return [it if isinstance(it, str) else it[1] for it in items if isinstance(it, str) or it[0] == "T"]
 
 
 def typed_text(t: str):
@@ -271,6 +291,17 @@ async def _step_async(case) -> _Run:
         fd = inp.fileno()
         cpr_out = case.get("out") == "cpr"
         in_wait = [False]
+        vclock = case.get("vclock")
+        emitted = []
+        if vclock:
+            app.ttimeoutlen = vclock / 1000.0
+            _rk, _fk = inp.read_keys, inp.flush_keys
+
+            def _rec(keys):
+                emitted.extend(kp_code(x) for x in keys)
+                return keys
+            inp.read_keys = lambda: _rec(_rk())
+            inp.flush_keys = lambda: _rec(_fk())
         limit = [1024]
         pipe_toks = []                      # tokens written and not yet read: [token, bytes left]
         orig_read = inp.stdin_reader.read
@@ -356,6 +387,14 @@ async def _step_async(case) -> _Run:
         async def collect():
             nonlocal task
             try:
+                if vclock:
+                    # the loop's clock stands still: spin instead of waiting for a timeout
+                    for _ in range(3000):
+                        if task.done():
+                            break
+                        await asyncio.sleep(0)
+                    if not task.done():
+                        raise asyncio.TimeoutError()
                 r = await asyncio.wait_for(task, WATCHDOG_S)
                 run.results.append((-1, r))
             except Abort:
@@ -370,11 +409,12 @@ async def _step_async(case) -> _Run:
         for ev in case["events"]:
             op = ev[0]
             if op == "W":
-                for t in ev[1]:
-                    bs = tok_bytes(t)
-                    pipe_toks.append([t, len(bs)])
+                for it in ev[1]:
+                    bs = item_bytes(it)
+                    pipe_toks.append([it, len(bs)])
+                for t in item_tokens(ev[1]):
                     typed_chars.update(typed_text(t))
-                inp.send_bytes(b"".join(tok_bytes(t) for t in ev[1]))
+                inp.send_bytes(b"".join(item_bytes(it) for it in ev[1]))
             elif op == "S":
                 if task is None and len(run.results) < k:
                     frozen = None
@@ -396,6 +436,8 @@ async def _step_async(case) -> _Run:
                                           str(e)[:200]))
                         run.lines.append("exception in read_from_input: " + type(e).__name__)
                 limit[0] = 1024
+                if vclock and not app.is_done:
+                    await asyncio.sleep(0)      # the new flush task starts its sleep at this time
             elif op == "F":
                 if task is not None and app.is_done and app._is_running:
                     if cpr_out:
@@ -410,6 +452,11 @@ async def _step_async(case) -> _Run:
                             in_wait[0] = True
                     else:
                         await collect()
+            elif op == "A":
+                # virtual time passes; the loop runs the timers that are due
+                loop.vt += ev[1] / 1000.0
+                for _ in range(4):
+                    await asyncio.sleep(0)
             elif op == "E":
                 # the CPR wait ends (answers, or its timeout); whatever is readable is read first
                 if task is not None and in_wait[0]:
@@ -431,10 +478,19 @@ async def _step_async(case) -> _Run:
             if app.future is not None and not app.is_done and app._is_running:
                 app.exit(exception=EOFError())
             try:
-                await asyncio.wait_for(task, WATCHDOG_S)
+                if vclock:
+                    for _ in range(3000):
+                        if task.done():
+                            break
+                        await asyncio.sleep(0)
+                else:
+                    await asyncio.wait_for(task, WATCHDOG_S)
             except BaseException:  # noqa
                 pass
         inp.stdin_reader.read = orig_read
+        if vclock:
+            inp.read_keys, inp.flush_keys = _rk, _fk
+            run.lines.append("out=" + enc_keys(emitted))
         run.leftover = [c for c in (kp_code(x) for x in _drain(inp)) if c != -3]
     return run
 
@@ -575,7 +631,7 @@ def real_run(case) -> _Run:
         _LAST[0], _LAST[1] = key, run
         return run
     if case["kind"] == "step":
-        run = _new_loop_run(_step_async(case))
+        run = _new_loop_run(_step_async(case), vclock=bool(case.get("vclock")))
     elif case["mode"] in ("async", "cprwait"):
         run = _new_loop_run(_e2e_async(case))
     else:
@@ -585,8 +641,20 @@ def real_run(case) -> _Run:
     return run
 
 
-def _new_loop_run(coro):
-    loop = asyncio.new_event_loop()
+class VLoop(asyncio.SelectorEventLoop):
+    """event loop with a virtual clock: `time()` only moves when the harness says so, so every
+    timer of the application (ttimeoutlen, timeoutlen, …) fires exactly when the schedule wants"""
+
+    def __init__(self):
+        super().__init__()
+        self.vt = 1000.0
+
+    def time(self):
+        return self.vt
+
+
+def _new_loop_run(coro, vclock=False):
+    loop = VLoop() if vclock else asyncio.new_event_loop()
     try:
         asyncio.set_event_loop(loop)
         return loop.run_until_complete(coro)
@@ -605,11 +673,13 @@ def model_lines(case):
         out = [f"{pre}init {case['k']}" + ("" if pre else f" {int(case.get('out') == 'cpr')}")]
         for ev in case["events"]:
             if ev[0] == "W":
-                out.append(f"{pre}W " + enc_keys(c for t in ev[1] for c in tok_codes(t)))
+                out.append(f"{pre}W " + enc_keys(c for t in item_tokens(ev[1]) for c in tok_codes(t)))
             elif ev[0] == "R":
                 out.append(f"{pre}R {ev[1]}")
             else:
                 out.append(pre + ev[0])
+        if case.get("vclock"):
+            out.append(_flush_line(case))       # (reply compared with what the input object delivered)
         # after the schedule: what is left unconsumed
         out.append(f"{pre}E2E " + str(case["k"]) + _rflag(case, pre) + " " + _sched_tokens(case["events"]))
         return out
@@ -624,12 +694,33 @@ def _sched_tokens(events):
     out = []
     for ev in events:
         if ev[0] == "W":
-            out.append("w " + enc_keys(c for t in ev[1] for c in tok_codes(t)))
+            out.append("w " + enc_keys(c for t in item_tokens(ev[1]) for c in tok_codes(t)))
         elif ev[0] == "R":
             out.append(f"r {ev[1]}")
+        elif ev[0] == "A":
+            continue
         else:
             out.append(ev[0].lower())
     return " ".join(out)
+
+
+def _flush_line(case):
+    """third layer: the timed reads / timer looks of the schedule"""
+    now, pend, out = 0, [], []
+    for ev in case["events"]:
+        if ev[0] == "A":
+            now += ev[1]
+            out.append(f"m {now}")
+        elif ev[0] == "W":
+            for it in ev[1]:
+                if isinstance(it, str):
+                    pend += [f"k{c}" for c in tok_codes(it)]
+                else:
+                    pend.append(("h" if it[0] == "H" else "t") + str(tok_code(it[1])))
+        elif ev[0] == "R":
+            out.append(f"r {now} {len(pend)} " + " ".join(pend) if pend else f"r {now} 0")
+            pend = []
+    return f"FL {case['vclock']} " + " ".join(out)
 
 
 def impl_lines(case):
@@ -728,7 +819,7 @@ def expected(tokens, k):
 
 def case_tokens(case):
     if case["kind"] == "step":
-        return [t for ev in case["events"] if ev[0] == "W" for t in ev[1]]
+        return [t for ev in case["events"] if ev[0] == "W" for t in item_tokens(ev[1])]
     return list(case["script"])
 
 
@@ -872,6 +963,58 @@ def pattern_events(toks, sizes, pat):
 
 def mk_step(toks_events, k):
     return {"kind": "step", "k": k, "events": toks_events + completion(k), "complete": True}
+
+
+# ---- virtual clock: chunk boundaries inside escape sequences, gaps measured against ttimeoutlen
+VT = 150                       # ttimeoutlen of these cases, in (virtual) milliseconds
+SPLITTABLE = ("LEFT", "RIGHT", "DEL", "HOME", "END", "LEFT2")
+
+
+def mk_vclock(chunks, gaps):
+    """chunks: lists of W items; gaps[i] = virtual ms between read i-1 and read i"""
+    toks = item_tokens([it for c in chunks for it in c])
+    k = fins(toks)
+    ev = [["S"]]
+    for c, g in zip(chunks, gaps):
+        # (one S per accepting key of the chunk and one more: a prompt is running at the next read,
+        #  so nothing stays unread in the pipe while virtual time passes)
+        ev += [["A", g], ["W", c], ["R", 100000], ["F"]] + [["S"]] * (fins(item_tokens(c)) + 1)
+    ev += [["A", 2 * VT]]
+    return {"kind": "step", "vclock": VT, "k": k, "events": ev + completion(k), "complete": True}
+
+
+def split_chunks(rng, toks, nchunks):
+    """cut the token list into chunks; a cut may fall inside the escape sequence of a key"""
+    n = len(toks)
+    cuts = sorted(set(rng.randrange(1, n) for _ in range(nchunks - 1))) if n > 1 else []
+    chunks, a = [], 0
+    carry = None
+    for c in cuts + [n]:
+        items = ([carry] if carry else []) + list(toks[a:c])
+        carry = None
+        # move the cut into the last key of the chunk when that key is an escape sequence
+        if c < n and items and isinstance(items[-1], str) and items[-1] in SPLITTABLE and rng.random() < 0.7:
+            t = items.pop()
+            j = rng.randrange(1, len(tok_bytes(t)))
+            items.append(["H", t, j])
+            carry = ["T", t, j]
+        chunks.append(items)
+        a = c
+    return chunks
+
+
+def gaps_for(rng, chunks):
+    """any gap after a chunk that ends at a key boundary; less than ttimeoutlen after a chunk that
+    ends inside a sequence (the property's "whatever the timing" cannot include a terminal that
+    stops in the middle of a sequence for longer than the escape timeout)"""
+    gaps, pending = [], False
+    for c in chunks:
+        if pending:
+            gaps.append(rng.choice([int(0.3 * VT), int(0.6 * VT), int(0.7 * VT), int(0.95 * VT)]))
+        else:
+            gaps.append(rng.choice([0, int(0.4 * VT), int(0.7 * VT), int(0.9 * VT), int(1.3 * VT), 3 * VT]))
+        pending = bool(c) and not isinstance(c[-1], str) and c[-1][0] == "H"
+    return gaps
 
 
 # ---- an output that answers CPR requests: the finished application waits for the answers
@@ -1210,6 +1353,26 @@ def cases(tier, rng):
         toks = inject_cpr(rng, rand_script(rng, nl, rich=True), p=rng.choice([0, 0.1, 0.25]))
         k = fins(toks)
         yield mk_e2e(rng, mode, toks, k)
+    # ---- virtual clock: bursts of chunks with a boundary inside an escape sequence
+    g_all = [int(0.4 * VT), int(0.7 * VT), int(0.95 * VT)]
+    for key in (("LEFT", "DEL") if quick else SPLITTABLE):
+        for j in range(1, len(tok_bytes(key))):
+            for g1 in ([0, int(0.7 * VT)] if quick else [0] + g_all):
+                for g2 in g_all:
+                    for g3 in g_all:
+                        # an earlier chunk, a chunk ending inside the sequence, the rest
+                        chunks = [["a"], ["b", ["H", key, j]], [["T", key, j], "X", "ENTER", "c", "d", "ENTER"]]
+                        yield mk_vclock(chunks, [g1, g2, g3])
+            # nothing before the split sequence / the split right at the start of a prompt
+            for g2 in g_all:
+                yield mk_vclock([["a", "b", ["H", key, j]], [["T", key, j], "X", "ENTER"]], [0, g2])
+                yield mk_vclock([["a", "ENTER", ["H", key, j]], [["T", key, j], "X", "ENTER"]], [int(0.7 * VT), g2])
+    nvc = 60 if quick else 1500
+    for _ in range(nvc):
+        toks = rand_script(rng, rng.choice([1, 2, 2, 3]), rich=True, tail=False)
+        toks = [t for t in toks if t != "CJ" or True]
+        chunks = split_chunks(rng, toks, rng.choice([2, 3, 4, 5]))
+        yield mk_vclock(chunks, gaps_for(rng, chunks))
     # ---- output that answers CPR requests: the CPR wait of the finished application
     c_alpha = ["a", "ENTER", "CPR:3;7"] if quick else ["a", "ENTER", "CPR:3;7", "CJ"]
     for n in range(1, 4):
@@ -1328,6 +1491,8 @@ def distribution(cases_):
             key += ":keybuffer"
         if c.get("out") == "cpr":
             key += ":cpr-output"
+        if c.get("vclock"):
+            key += ":virtual-clock"
         d["kind"][key] = d["kind"].get(key, 0) + 1
         d["prompts"][str(c["k"])] = d["prompts"].get(str(c["k"]), 0) + 1
         toks = case_tokens(c)
